@@ -1,10 +1,10 @@
 import FsutilModel.DiffMain
 namespace Fsm.D
 
-variable {P : Type} [DecidableEq P]
+variable {P : Type} [DecidableEq P] {I : Type} [DecidableEq I]
 
-theorem popU_add {O : PathOrd P} {tU : TMap P} {u : Ent P} {ls us : List (Ent P)} {rm : Option P}
-    {t : TMap P} (hi : Inv O tU ls (u :: us) rm t)
+theorem popU_add {O : PathOrd P} {tU : TMap P I} {u : Ent P I} {ls us : List (Ent P I)} {rm : Option P}
+    {t : TMap P I} (hi : Inv O tU ls (u :: us) rm t)
     (hlt : ∀ l ∈ ls, O.lt u.path l.path = true) :
     Inv O tU ls us none (applyEv O t (.add u)) := by
   have hnone : t u.path = none := by
@@ -15,21 +15,21 @@ theorem popU_add {O : PathOrd P} {tU : TMap P} {u : Ent P} {ls us : List (Ent P)
   · intro q hq; rw [applyEv_add]; simp [hq, hnone]
   · rw [applyEv_add]; simp
 
-theorem ent_ext {a b : Ent P} (h1 : a.path = b.path) (h2 : same a b = true) : a = b := by
+theorem ent_ext {a b : Ent P I} (h1 : a.path = b.path) (h2 : same a b = true) : a = b := by
   cases a; cases b
   simp [same] at h2
   simp at h1
   simp [h1, h2.1, h2.2]
 
-theorem top_is_l {O : PathOrd P} {tU : TMap P} {l u : Ent P} {ls us : List (Ent P)} {rm : Option P}
-    {t : TMap P} (hi : Inv O tU (l :: ls) (u :: us) rm t) (hp : l.path = u.path) :
+theorem top_is_l {O : PathOrd P} {tU : TMap P I} {l u : Ent P I} {ls us : List (Ent P I)} {rm : Option P}
+    {t : TMap P I} (hi : Inv O tU (l :: ls) (u :: us) rm t) (hp : l.path = u.path) :
     t u.path = some l := by
   rcases hi.pl l (by simp) with h | ⟨_, h2⟩
   · rw [← hp]; exact h
   · exact absurd hp.symm (h2 u (by simp))
 
-theorem popB_same {O : PathOrd P} {tU : TMap P} {l u : Ent P} {ls us : List (Ent P)} {rm : Option P}
-    {t : TMap P} (hi : Inv O tU (l :: ls) (u :: us) rm t) (hp : l.path = u.path)
+theorem popB_same {O : PathOrd P} {tU : TMap P I} {l u : Ent P I} {ls us : List (Ent P I)} {rm : Option P}
+    {t : TMap P I} (hi : Inv O tU (l :: ls) (u :: us) rm t) (hp : l.path = u.path)
     (hs : same l u = true) : Inv O tU ls us none t := by
   have hlu := ent_ext hp hs
   apply inv_popB hi hp
@@ -39,8 +39,8 @@ theorem popB_same {O : PathOrd P} {tU : TMap P} {l u : Ent P} {ls us : List (Ent
   · intro l' _; left; rfl
   · intro d' h; cases h
 
-theorem popB_modify {O : PathOrd P} {tU : TMap P} {l u : Ent P} {ls us : List (Ent P)} {rm : Option P}
-    {t : TMap P} (hi : Inv O tU (l :: ls) (u :: us) rm t) (hp : l.path = u.path) :
+theorem popB_modify {O : PathOrd P} {tU : TMap P I} {l u : Ent P I} {ls us : List (Ent P I)} {rm : Option P}
+    {t : TMap P I} (hi : Inv O tU (l :: ls) (u :: us) rm t) (hp : l.path = u.path) :
     Inv O tU ls us (if (l.isDir && !u.isDir) = true then some l.path else none)
       (applyEv O t (.modify u)) := by
   have htop := top_is_l hi hp
@@ -79,9 +79,9 @@ theorem popB_modify {O : PathOrd P} {tU : TMap P} {l u : Ent P} {ls us : List (E
       simp [hne, hu, hsw]
     · simp [hc] at hd'
 
-theorem diff_fold (O : PathOrd P) (tU : TMap P) :
+theorem diff_fold (O : PathOrd P) (fc : Bool) (tU : TMap P I) :
     ∀ n ls us rm t, ls.length + us.length < n → Inv O tU ls us rm t →
-      ∀ q, (diff O n ls us rm).foldl (applyEv O) t q = tU q := by
+      ∀ q, (diff O fc n ls us rm).foldl (applyEv O) t q = tU q := by
   intro n
   induction n with
   | zero => intro ls us rm t h; omega
@@ -100,7 +100,7 @@ theorem diff_fold (O : PathOrd P) (tU : TMap P) :
       cases us with
       | nil =>
         simp only [diff]
-        exact popL_branch hi (by simp) (fun ls' rm' => diff O n ls' [] rm')
+        exact popL_branch hi (by simp) (fun ls' rm' => diff O fc n ls' [] rm')
           (fun rm' t' hi' q' => ih ls [] rm' t' (by simp at hn ⊢; omega) hi' q') q
       | cons u us =>
         simp only [diff]
@@ -110,7 +110,7 @@ theorem diff_fold (O : PathOrd P) (tU : TMap P) :
             intro x hx; simp at hx; rcases hx with hx | hx
             · subst hx; exact h1
             · exact O.lt_trans _ _ _ h1 (sorted_head hi.sU x hx)
-          exact popL_branch hi hlt (fun ls' rm' => diff O n ls' (u :: us) rm')
+          exact popL_branch hi hlt (fun ls' rm' => diff O fc n ls' (u :: us) rm')
             (fun rm' t' hi' q' => ih ls (u :: us) rm' t' (by simp at hn ⊢; omega) hi' q') q
         · simp only [h1, if_false]
           by_cases h2 : O.lt u.path l.path = true
@@ -126,8 +126,9 @@ theorem diff_fold (O : PathOrd P) (tU : TMap P) :
               · exact h
               · exact absurd h h1
               · exact absurd h h2
-            by_cases hs : same l u = true
+            by_cases hs : (!fc && same l u) = true
             · simp only [hs, if_true]
+              have hs : same l u = true := by simp at hs; exact hs.2
               have hrm : (if (l.isDir && !u.isDir) = true then some l.path else none) = (none : Option P) := by
                 have := ent_ext hp hs; subst this; simp
               rw [hrm]
